@@ -12,6 +12,7 @@ package simrt
 
 import (
 	"sync"
+	"unsafe"
 	"encoding/json"
 	"fmt"
 	"iter"
@@ -449,6 +450,7 @@ var pools = map[*sync.Pool][]any{}
 //
 //go:norace
 func PoolGet(site string, p *sync.Pool) any {
+	poolSync(p, false)
 	if st := pools[p]; len(st) > 0 {
 		x := st[len(st)-1]
 		pools[p] = st[:len(st)-1]
@@ -468,4 +470,27 @@ func PoolPut(site string, p *sync.Pool, x any) {
 		return
 	}
 	pools[p] = append(pools[p], x)
+	poolSync(p, true)
+}
+
+// poolSync tells the race detector what a real sync.Pool guarantees: everything done to an
+// object before Put happens before whatever the goroutine that Gets it does afterwards.
+//
+//go:norace
+func poolSync(p *sync.Pool, release bool) {
+	if !RaceBuild {
+		return
+	}
+	h := hidden()
+	if h {
+		raceEnable()
+	}
+	if release {
+		raceReleaseMerge(unsafe.Pointer(p))
+	} else {
+		raceAcquire(unsafe.Pointer(p))
+	}
+	if h {
+		raceDisable()
+	}
 }
